@@ -1,6 +1,53 @@
 /-
   Sipsp.Proofs.ShiftMsg — position independence (property C11) of ParseHdrLine, ParseHeaders and ParseSIPMsg, and the
   pipelining corollary (property C06).
+
+  Setting as in Sipsp.Proofs.Shift / ShiftNA / ShiftLists: the text `t` is parsed at its own start (buffer `t`, offset
+  `o`) and after `k = pre.size` arbitrary bytes (buffer `pre ++ t`, offset `k + o`), with `pre.size + t.size ≤ 65535`.
+
+  (1) THE TRANSLATIONS.
+  * `shHv k`: the header-values object, every typed value through its own translation (`shNa` From / To, `shCi`
+    Call-ID, `shCs` CSeq, `shCl` Content-Length / Expires, `shCt` contacts, `shPa` identities); `shHv_new`.
+  * `shHdr k`: a header: the value is moved unless it is the zero field (`shO`: "zero = not set"); the name is moved in
+    every state between the initial and the final one, and follows the zero convention in the initial and the final
+    state (the empty line that ends the block is a final header without name); type, state, panic flag unchanged.
+  * `shHls k`: the header list: every stored header, the first-of-type shortcuts, the header in progress; count and type
+    flags unchanged (`shHls_cur`, `shHls_setCur`, `shHls_setHdr`, `shHls_accept`, `shHls_getHdr`).
+  * `shFl k`: the first line (one translation for request and status lines: `shReq` / `shRpl` of ShiftFLine according
+    to the state; a finished status line is recognised by its 3-byte status-code field).
+  * `shMsg k`: the message: first line, header list, values, body (once the body section is reached), the start offset
+    of the message (once the first call has stored it), and — for a complete message — `bufLen` and `rawOffs`
+    (`Buf = buf[0 : bufLen]`, `RawMsg = Buf[rawOffs : rawOffs + rawLen]`) grow by `k` while `rawLen`, state, panic flag do
+    not change (`shMsg_init`: every Init object is its own translation; `shMsg_scalars`).
+
+  (2)–(4) PROVED (all inputs, every flag combination, any capacity, no size bound other than the 16-bit limit):
+  * `parseHdrLine_shift` (+ `_exact`, `_shiftEntry`, `_resume`), through `smParseBody` (the header-value dispatch, all
+    eight typed kinds), `smHlCont` (continuation of a suspended value), `smHlAfterColon`, `smHlName`, `smHlValEnd`,
+    `smHlStep` (every state of the loop) and the relational loop theorem `runLoop_shiftR`;
+  * `parseHeaders_shift` (loop over lines: stored headers, count, type flags, first-of-type table);
+  * `parseSIPMsg_shift` (+ `_exact`, `_ok`, `_init`, `_resume`) through `smParseFLine` (first line, every legitimate
+    object), `smMsgHeaders`, `smMsgBody` (all Content-Length / flag cases), `smMsgErr`;
+  * `pipeline_second_message`, `pipeline_second_message_ok` (namespace-free, for C06).
+  FORM OF THE STATEMENTS. The call on `pre ++ t` at `k + o` with the moved objects returns the returned offset + k, the
+  same verdict and the moved objects: EXACTLY after OK / MoreBytes / Empty (ParseHdrLine, ParseHeaders) resp. whenever the
+  call does not end in the error state (ParseSIPMsg), and after an error verdict up to the saved restart offset `soffs`
+  of the name-addr value that was being parsed (`smHvObs` = `PFromBody.obs` on From / To, `ctObsCur` / `paObsCur` on
+  the lists; `smRelHL`, `smRelHb`, `smRelM`): that field is never reported and is stale after an error (see ShiftNA; the
+  plain form is false there, a test below exhibits it). The header, the header list, the first line, the body and all
+  bookkeeping are moved exactly in every case.
+  LEGITIMATE OBJECTS (hypotheses). `HlAll t o (h, hb)` = the panic-freedom invariants `HlSafe` (SafeHdrLine), `hlInv`
+  (HdrLineL1) + `HlSh`: outside the initial state the position is ≥ 1, a value being scanned starts at ≥ 1, a complete
+  name is not the zero field, and `HvSh`: From / To satisfy `SlEl` (ShiftLists), the typed values lie at positions ≥ 1
+  (`CiLoI 1`, `ClLoI 1`, `CsLoI 1` of FieldsLo, `CsPos` of Shift), a list in progress satisfies `CtShift` / `PaShift`.
+  `HlsAll` (header list) and `MsgAll` (message: `msgOK2`, `MsgSafe`, not terminated, `FlSh`, `HlSh`) are built the
+  same way. They hold of new objects (`HlAll_new`, `HvSh_new`, `HlSh_new`) and of every object produced by Init
+  (`MsgAll_init`), are re-established after an OK line (inside `parseHeaders_shift`) and after MoreBytes at the returned
+  offset, also on a grown buffer (`parseHdrLine_shiftEntry`, second part of `parseSIPMsg_shift`). For this the lower
+  bounds of FieldsLo are extended to MoreBytes exits: `smCi_more`, `smCl_more`, `smClen_more`, `smCs_more`, `smCs_posMore`.
+  NOT proved here: the statement for message objects that have already terminated (states Err / NoCLen / Fin, where a
+  further call only reports a bug) and for objects returned with an error verdict (no invariant is re-established after
+  errors, as in SafeHdrLine); the generalisation of the pipelining corollary to a list of messages; ParseHeaders from a
+  suspended pair is covered through `HlsAll`, whose re-establishment after MoreBytes is proved at the message level only.
 -/
 import Sipsp.Proofs.ShiftLists
 import Sipsp.Proofs.SafeMsg
@@ -2426,6 +2473,30 @@ theorem HlAll_new (t : Buf) (o : Nat) (ho : o ≤ t.size) (m : Nat) :
   ⟨HlSafe_new t o _ ho (fun hv hh => by cases hh; exact HvSafe_new t o ho m),
    ⟨ho, hdrOK_new t, (msgOK_init t o ho {} 0 0 m none (some ())).2.2.2⟩,
    HlSh_new t o ho m⟩
+
+/-- **after MoreBytes the returned pair is a legitimate argument again**, at the returned offset, also once more
+    bytes `s` have arrived (`hlPending`: the value a suspended header waits for is not finished yet — true of every
+    pair returned with MoreBytes and of every new header) -/
+theorem parseHdrLine_shiftEntry (t s : Buf) (o : Nat) (h : Hdr) (hb : Option PHdrVals) (hfit : t.size ≤ 65535)
+    (hA : HlAll t o (h, hb)) (hpe : hlPending (h, hb)) {o' : Nat} {h' : Hdr} {hb' : Option PHdrVals}
+    (hr : parseHdrLine t o h hb = (o', Err.moreBytes, h', hb')) :
+    HlAll (t ++ s) o' (h', hb') ∧ hlPending (h', hb') := by
+  have h1 := (parseHdrLine_safe t o h hb hfit hA.1 hA.2.1 hr).2.1 (Or.inr rfl)
+  have h2 := parseHdrLine_resume t s o h hb hA.2.1 hpe hr
+  obtain ⟨_, _, _, _, h3⟩ := parseHdrLine_shift #[] t o h hb (by simpa using hfit) hA hr
+  exact ⟨⟨h1.grow (by rw [Array.size_append]; omega), h2.2.1, (h3 (Or.inr rfl)).append s⟩, h2.2.2.1⟩
+
+/-- … hence **the resumed call is position independent too** -/
+theorem parseHdrLine_shift_resume (pre t s : Buf) (o : Nat) (h : Hdr) (hb : Option PHdrVals)
+    (hfit : pre.size + (t ++ s).size ≤ 65535) (hA : HlAll t o (h, hb)) (hpe : hlPending (h, hb)) {o' : Nat} {h' : Hdr}
+    {hb' : Option PHdrVals} (hr : parseHdrLine t o h hb = (o', Err.moreBytes, h', hb'))
+    {o'' : Nat} {e : Err} {h'' : Hdr} {hb'' : Option PHdrVals}
+    (hr2 : parseHdrLine (t ++ s) o' h' hb' = (o'', e, h'', hb'')) :
+    ∃ g gb, parseHdrLine (pre ++ (t ++ s)) (pre.size + o') (shHdr pre.size h') (hb'.map (shHv pre.size)) =
+        (pre.size + o'', e, g, gb) ∧ smRelHL pre.size e (g, gb) (h'', hb'') := by
+  have hE := (parseHdrLine_shiftEntry t s o h hb (by rw [Array.size_append] at hfit; omega) hA hpe hr).1
+  obtain ⟨g, gb, a1, a2, _⟩ := parseHdrLine_shift pre (t ++ s) o' h' hb' hfit hE hr2
+  exact ⟨g, gb, a1, a2⟩
 
 /-- **every object produced by Init is legitimate** (any previous contents, caller arrays of any capacity or none) -/
 theorem MsgAll_init (t : Buf) (o : Nat) (ho : o ≤ t.size) (m : PSIPMsg) (len kh kc : Nat) (hdrs cts : Option Unit) :
